@@ -27,6 +27,12 @@ Definition log (c : callid) (args : list Z) (sargs : list str) (r : Z) (outs : l
 
 Definition fail (c : callid) (args : list Z) (sargs : list str) (e : Z) : MW Z :=
   set_errno e ;> log c args sargs (-1) [] 0 ;> ret (-1).
+(* a blocking call interrupted by the fault plan: the latency of that very call is the time it
+   had been blocked when the failure (e.g. EINTR) arrived *)
+Definition last_lat : MW Z :=
+  gets (fun w => Z.max 0 (default 0 (assocZ (w_calls w - 1) (w_lat w)))).
+Definition failb (c : callid) (args : list Z) (sargs : list str) (e : Z) : MW Z :=
+  let* l := last_lat in set_errno e ;> log c args sargs (-1) [] l ;> ret (-1).
 Definition done (c : callid) (args : list Z) (sargs : list str) (r : Z) (outs : list Z) : MW Z :=
   log c args sargs r outs 0 ;> ret r.
 
@@ -141,6 +147,28 @@ Definition sys_dup2 (a b : Z) : MW Z :=
       end
   end.
 
+(* fcntl(fd, F_DUPFD_CLOEXEC, minfd): lowest free descriptor >= minfd, close-on-exec set *)
+Fixpoint lowest_free_ge (t : gmap Z fdent) (i : Z) (fuel : nat) : Z :=
+  match fuel with
+  | O => i
+  | S f => match t !! i with None => i | Some _ => lowest_free_ge t (i + 1) f end
+  end.
+Definition sys_dupfd (fd minfd : Z) : MW Z :=
+  let* f := prelude in
+  match f with
+  | Some e => fail CDupfd [fd; minfd] [] (Zpos e)
+  | None =>
+      let* w := get in
+      let p := curp w in
+      match pr_fds p !! fd with
+      | None => fail CDupfd [fd; minfd] [] EBADF
+      | Some d =>
+          let n := lowest_free_ge (pr_fds p) (Z.max 0 minfd) (size (pr_fds p)) in
+          if (0 <=? pr_rlimit p) && (pr_rlimit p <=? n) then fail CDupfd [fd; minfd] [] EMFILE
+          else set_cur_fds (<[n := fd_set_cloexec true d]> (pr_fds p)) ;> done CDupfd [fd; minfd] [] n []
+      end
+  end.
+
 (* ---- read / write / poll ---- *)
 Definition blocked_since (t0 : Z) : MW Z := gets (fun w => w_time w - t0).
 
@@ -150,7 +178,7 @@ Definition pipe_readable (q : Z) (w : world) : bool :=
 Definition sys_read (fd n : Z) : MW (Z * list run) :=
   let* f := prelude in
   match f with
-  | Some e => fail CRead [fd; n] [] (Zpos e) ;> ret (-1, [])
+  | Some e => failb CRead [fd; n] [] (Zpos e) ;> ret (-1, [])
   | None =>
       let* t := gets cur_fds in
       match t !! fd with
@@ -226,7 +254,7 @@ Definition sys_write (fd : Z) (data : list run) : MW Z :=
   let n := runs_len data in
   let* f := prelude in
   match f with
-  | Some e => fail CWrite [fd; n] [] (Zpos e)
+  | Some e => failb CWrite [fd; n] [] (Zpos e)
   | None =>
       let* t := gets cur_fds in
       match t !! fd with
@@ -274,7 +302,11 @@ Definition sys_poll (fds : list (Z * Z)) (tmo : Z) : MW (Z * list Z) :=
   let args := tmo :: flat_fds fds in
   let* f := prelude in
   match f with
-  | Some e => fail CPoll args [] (Zpos e) ;> ret (-1, map (fun _ => 0) fds)
+  | Some e =>
+      (* interrupted after having been blocked for the call's latency, but never longer than its time-out *)
+      let* l := last_lat in
+      set_errno (Zpos e) ;> log CPoll args [] (-1) [] (if tmo <? 0 then l else Z.min l tmo) ;>
+      ret (-1, map (fun _ => 0) fds)
   | None =>
       fun w =>
         match block_until (poll_ready fds) tmo w with
@@ -295,9 +327,34 @@ Definition is_abs (p : str) : bool := match p with c :: _ => c =? slash | [] => 
 Definition ends_slash (p : str) : bool := last p 0 =? slash.   (* List.rev is quadratic *)
 Definition strip_dot_slash (p : str) : str :=
   match p with 46 :: 47 :: r => r | _ => p end.
+(* lexical normalisation of an absolute path: "." and empty components dropped, ".." pops
+   (no symbolic links in the modelled file system) *)
+Fixpoint split_slash (cur : str) (s : str) : list str :=
+  match s with
+  | [] => [List.rev' cur]
+  | c :: r => if c =? slash then List.rev' cur :: split_slash [] r else split_slash (c :: cur) r
+  end.
+Definition norm_step (stack : list str) (comp : str) : list str :=
+  match comp with
+  | [] => stack
+  | [46] => stack
+  | [46; 46] => match stack with _ :: t => t | [] => [] end
+  | _ => comp :: stack
+  end.
+Definition join_slash (comps : list str) : str :=
+  match comps with
+  | [] => [slash]
+  | _ => flat_map (fun c => slash :: c) comps
+  end.
+Definition normalize_path (p : str) : str :=
+  join_slash (List.rev' (fold_left norm_step (split_slash [] p) [])).
+Definition has_dot_comp (p : str) : bool :=
+  existsb (fun c => match c with [46] | [46; 46] | [] => true | _ => false end) (tl (split_slash [] p)).
 Definition abs_path (cwd p : str) : str :=
-  if is_abs p then p
-  else cwd ++ (if ends_slash cwd then [] else [slash]) ++ strip_dot_slash p.
+  let full := if is_abs p then p
+              else cwd ++ (if ends_slash cwd then [] else [slash]) ++ strip_dot_slash p in
+  (* keep the literal form unless it contains ".", ".." or empty components (trailing slash kept) *)
+  if has_dot_comp (if ends_slash full then removelast full else full) then normalize_path full else full.
 Definition has_slash (p : str) : bool := memZ slash p.
 
 (* directory part of an absolute path: everything before the last slash ("/" for top level) *)
@@ -514,7 +571,7 @@ Definition has_children (par : Z) (w : world) : bool :=
 Definition sys_waitpid (pid : Z) : MW (Z * Z) :=
   let* f := prelude in
   match f with
-  | Some e => fail CWaitpid [pid] [] (Zpos e) ;> ret (-1, 0)
+  | Some e => failb CWaitpid [pid] [] (Zpos e) ;> ret (-1, 0)
   | None =>
       fun w =>
         let me := w_cur w in
@@ -552,6 +609,28 @@ Definition sys_waitpid (pid : Z) : MW (Z * Z) :=
           | BHang w1 => Hang w1
           | BFuel w1 => Crash crash_fuel w1
           end
+  end.
+
+(* waitpid(pid, &status, WNOHANG) for pid > 0: like sys_waitpid but returns 0 at once while the
+   child is still running (only reached by rewrites of the library; the pinned code passes 0) *)
+Definition sys_waitpid_nohang (pid : Z) : MW (Z * Z) :=
+  let* f := prelude in
+  match f with
+  | Some e => failb CWaitpid [pid; 1] [] (Zpos e) ;> ret (-1, 0)
+  | None =>
+      let* w := get in
+      match w_procs w !! pid with
+      | Some p =>
+          if (0 <? pid) && is_child_of (w_cur w) p then
+            match pr_state p with
+            | Zombie st =>
+                modify (upd_proc pid (pr_with_state (Reaped st))) ;>
+                log CWaitpid [pid; 1] [] pid [Z.of_N st] 0 ;> ret (pid, Z.of_N st)
+            | _ => log CWaitpid [pid; 1] [] 0 [] 0 ;> ret (0, 0)
+            end
+          else fail CWaitpid [pid; 1] [] ECHILD ;> ret (-1, 0)
+      | None => fail CWaitpid [pid; 1] [] ECHILD ;> ret (-1, 0)
+      end
   end.
 
 (* kill: pid <= 0 is a broadcast — recorded, never delivered (the C06 monitor rejects it) *)
